@@ -75,8 +75,7 @@ func newSteer(workers int) (*steerEnv, error) {
 		return nil, fmt.Errorf("a previous schedule hung")
 	}
 	e := &steerEnv{rec: &recorder{byRep: map[string]int{}, grp: map[int]string{}}, g: &gateCtl{holds: map[int]*hold{}}}
-	res.VerifNoteFn = e.rec.add
-	res.VerifGateFn = e.g.fn
+	setHooks(e.rec.add, e.g.fn)
 	e.s = res.NewService("pool")
 	e.s.SetLogger(svc.NopLogger{})
 	e.s.SetWorkerCount(workers)
@@ -93,8 +92,7 @@ func newSteer(workers int) (*steerEnv, error) {
 }
 
 func (e *steerEnv) close() {
-	res.VerifNoteFn = nil
-	res.VerifGateFn = nil
+	setHooks(nil, nil)
 }
 
 // submit calls WithGroup from a new goroutine, optionally holding it at a gate.
